@@ -55,6 +55,8 @@ class Model:
                     for r in self.rooms:
                         ops.append(('enter', s, ns, r))
                         ops.append(('leave', s, ns, r))
+                        if s in w.ref[ns].get(r, ()):
+                            ops.append(('emit+leave', s, ns, r))
                     if self.sidroom and (0, '/') in w.sid and ns == '/' \
                             and s != 0:
                         ops.append(('enter', s, ns, '@sid'))
@@ -109,6 +111,31 @@ class Model:
             _, s, ns, room = op
             room = self._room(w, room)
             r = w.api('leave_room', w.sid[(s, ns)], room, namespace=ns)
+            w.ref[ns].get(room, set()).discard(s)
+        elif kind == 'emit+leave':
+            # emit to the room and leave it right away, issued back to back
+            # by one task: the leaver is still addressed by that emit
+            _, s, ns, room = op
+            sid = w.sid[(s, ns)]
+            w.drain_all()
+            if w.is_async:
+                async def both():
+                    await w.sio.emit('pre', 1, to=room, namespace=ns)
+                    await w.sio.leave_room(sid, room, namespace=ns)
+                r = w.run(both)
+            else:
+                r = w.api('emit', 'pre', 1, to=room, namespace=ns)
+                if r[0] == 'ok':
+                    r = w.api('leave_room', sid, room, namespace=ns)
+            want = set(w.ref[ns].get(room, set()))
+            for s2 in range(self.T):
+                frames = [f for f in w.drain(w.slot[s2])
+                          if f != ('eio', 'END')]
+                exp = [('pkt', 2, ns, None, ['pre', 1])] if s2 in want \
+                    else []
+                if frames != exp:
+                    self._bad(w, 'delivery', f'{op}: slot {s2} got '
+                              f'{frames!r}, expected {exp!r}')
             w.ref[ns].get(room, set()).discard(s)
         elif kind == 'close':
             _, room, ns = op
